@@ -193,11 +193,11 @@ func (w *schemeWorld) daemonPart(tmp string) error {
 		rec("control.PingPong", r, err)
 	}
 	{
-		r, err := dd.ListSchemes(ctx, &pb.ListSchemesRequest{Metadata: md})
+		r, err := dd.ListSchemes(ctx, &pb.ListSchemesRequest{})
 		rec("control.ListSchemes", r, err)
 	}
 	{
-		r, err := dd.ListBeaconIDs(ctx, &pb.ListBeaconIDsRequest{Metadata: md})
+		r, err := dd.ListBeaconIDs(ctx, &pb.ListBeaconIDsRequest{})
 		rec("control.ListBeaconIDs", r, err)
 	}
 	{
@@ -224,7 +224,7 @@ func (w *schemeWorld) daemonPart(tmp string) error {
 		}
 	}
 	{
-		r, err := dd.Metrics(ctx, &pb.MetricsRequest{Metadata: md})
+		r, err := dd.Metrics(ctx, &pb.MetricsRequest{})
 		rec("control.Metrics", r, err)
 	}
 	// HTTP bodies served by the daemon's REST gateway
